@@ -320,6 +320,7 @@ def far_datasets(recs, sizes, bounded):
         out.append(('far', 'shifted', [cs[(cs.index(tuple(r)) + len(cs) // 2 + 1) % len(cs)] for r in recs]))
     else:
         out.append(('far', 'one-record', [cs[-2]]))
+        out.append(('far', 'empty', []))      # the empty table: end of the chain of removals (whether the table is empty is private too)
         out.append(('far', 'uniform-x5', [c for c in cs for _ in range(5)]))
         out.append(('far', 'all-last-x2', [cs[-1]] * (2 * n)))
         out.append(('far', 'shifted', [cs[(cs.index(tuple(r)) + len(cs) // 2 + 1) % len(cs)] for r in recs]))
